@@ -715,14 +715,16 @@ impl<'a> Gen<'a> {
 pub fn gen_staking(rng: &mut Rng, thorough: bool) -> Vec<String> {
     const E: u128 = 1_000_000_000_000_000_000;
     let fixed_d3 = rng.below(150) == 0;
-    let unb = if fixed_d3 { 60 } else { rng.pick(&[60u64, 60, 100, 1000, 86400, YEAR / 3]) };
+    let unb = if fixed_d3 { 60 } else { rng.pick(&[60u64, 60, 100, 1000, 86400, YEAR / 3, 0, 1]) };
     let apr: u128 = if fixed_d3 { E / 10 } else { rng.pick(&[E / 10, 7 * E / 100, 13 * E / 100, E, E + 1, E, E / 2, E / 10, 0]) };
     let comms: [u128; 7] = [0, 3 * E / 100, E / 10, 333_333_333_333_333_333, 1, E / 10, E];
     let nvals = if thorough || rng.chance(1, 2) { 3 } else { 2 };
     let malformed_case = rng.chance(15, 100);
     let subsec = rng.chance(1, 3);
     let mut g = Gen { rng, out: vec![], unb, nvals, del: BTreeMap::new(), now: (0, 879_305_533), pending: vec![], subsec };
-    g.out.push(format!("setup TOKEN {} {}", unb, apr));
+    // the bonded denomination is a parameter of the chain, not the literal "TOKEN"
+    let bonded = if fixed_d3 { "TOKEN" } else { g.rng.pick(&["TOKEN", "TOKEN", "ustake", "a"]) };
+    g.out.push(format!("setup {} {} {}", bonded, unb, apr));
     for v in 0..nvals {
         let c = if g.rng.below(40) == 0 { E } else { g.rng.pick(&comms[..6]) };
         g.out.push(format!("validator v{} {}", v + 1, c));
